@@ -187,7 +187,7 @@ impl World for WorldI {
                     auth: if fault { user_fault(rng) } else if f_auth && rng.chance(1, 6) { AuthVar::Everyone } else { AuthVar::Right },
                     abort,
                 },
-                2 => IOp::Register { tok: if rng.chance(4, 5) { rng.below(4) as u8 } else { rng.below(8) as u8 }, abort },
+                2 => IOp::Register { tok: if rng.chance(1, 10) { 100 + rng.below(3) as u8 } else if rng.chance(4, 5) { rng.below(4) as u8 } else { rng.below(8) as u8 }, abort },
                 3 => IOp::Send {
                     caller: if rng.chance(1, 20) { 200 } else { rng.below(4) as u8 },
                     tok: if rng.chance(9, 10) { TokRef::Registered(rng.below(6) as u8) } else { TokRef::Unknown(rng.below(3) as u8) },
@@ -217,7 +217,7 @@ impl World for WorldI {
                 }},
                 5 => IOp::DeployRemoteCanonical {
                     tok: {
-                        let known: Vec<u8> = ops.iter().filter_map(|o| if let IOp::Register { tok, .. } = o { Some(*tok) } else { None }).collect();
+                        let known: Vec<u8> = ops.iter().filter_map(|o| if let IOp::Register { tok, .. } = o { Some(*tok) } else { None }).filter(|t| *t < 100).collect();
                         if !known.is_empty() && rng.chance(3, 4) { *rng.pick(&known) } else { rng.below(8) as u8 }
                     },
                     chain: dest_chain(rng, &cfg, &ops),
@@ -235,9 +235,9 @@ impl World for WorldI {
                     };
                     let body = if deploy_body {
                         InBody::Deploy {
-                            id: match rng.weighted(&[11, 4, 3, 2]) { 0 => InId::Fresh(rng.below(6) as u8), 1 => InId::Taken(rng.below(4) as u8), 2 => InId::CanonicalOf(rng.below(4) as u8), _ => InId::LocalOf { caller: rng.below(4) as u8, salt: rng.below(3) as u8 } },
+                            id: match rng.weighted(&[11, 4, 3, 2]) { 0 => InId::Fresh(rng.below(6) as u8), 1 => InId::Taken(rng.below(4) as u8), 2 => InId::CanonicalOf(if rng.chance(1, 4) { 100 + rng.below(3) as u8 } else { rng.below(4) as u8 }), _ => InId::LocalOf { caller: rng.below(4) as u8, salt: rng.below(3) as u8 } },
                             meta: gen_meta(rng, true),
-                            minter: match rng.weighted(&[5, 4, 1, 1]) { 0 => InMinter::None, 1 => InMinter::User(rng.below(4) as u8), 2 => InMinter::Garbage, _ => InMinter::NonAddress(rng.below(4) as u8) },
+                            minter: match rng.weighted(&[5, 4, 1, 1]) { 0 => InMinter::None, 1 => InMinter::User(rng.below(4) as u8), 2 => InMinter::Garbage, _ => InMinter::NonAddress(rng.below(6) as u8) },
                         }
                     } else {
                         InBody::Transfer {
@@ -255,7 +255,7 @@ impl World for WorldI {
                                 _ => InAmt::HighBitPlus { bit: *rng.pick(&[127u8, 128, 129, 135, 160, 191, 192, 200, 254, 255]), low: rng.range(1, 300) as u16 },
                             },
                             data: if rng.chance(1, 3) { Some(rng.below(3) as u8) } else { None },
-                            src: rng.below(4) as u8,
+                            src: rng.below(24) as u8,
                         }
                     };
                     let want_dev = f_dev && rng.chance(if matches!(focus, "C04" | "C10") { 3 } else { 1 }, 5);
